@@ -378,7 +378,8 @@ impl Prop for C12 {
         let envs = |i: usize| format!("{}{}", if c.mods[i].tagdef.is_empty() { "none" } else { &c.mods[i].tagdef }, if c.mods[i].implied { "+implied" } else { "" });
         let src_dump = sources.join("\n=====\n");
         let jg = match &joint {
-            Outcome::Ok { generated, warnings } if warnings.is_empty() => generated.clone(),
+            // (warnings are not the property's subject: it compares the bindings of each module, which follows)
+            Outcome::Ok { generated, .. } => generated.clone(),
             Outcome::Panic { message, location } => return CaseResult { discs: vec![Disc::new(format!("panic|{location}"), format!("{message}\n{src_dump}"))], nontrivial: false, outcome: "panic".into(), skipped: None },
             other => {
                 let k = if dup { "module|duplicate-source|rejected".to_string() } else { format!("module|joint-rejected|n={}|single={}|{}", c.order.len(), c.single_source, other.class()) };
@@ -410,8 +411,8 @@ impl Prop for C12 {
             let cl = closure(&c.mods, *i);
             let alone_src: Vec<String> = cl.iter().map(|j| texts[*j].clone()).collect();
             let alone = compile_rasn(&alone_src, &cfg);
-            let ag = match alone.ok_clean() {
-                Some(g) => g.to_string(),
+            let ag = match alone.ok_any() {
+                Some((g, _)) => g.to_string(),
                 None => {
                     discs.push(Disc::new(format!("module|standalone-rejected|{}", alone.class()), format!("{}\n{}", alone.brief(), alone_src.join("\n=====\n"))));
                     continue;
